@@ -18,15 +18,19 @@ Proof.
   induction l as [|a l IH]; simpl; [split; auto; intros _ y []|].
   destruct (p a) eqn:E; split; intros H.
   - discriminate.
-  - rewrite (H a) in E by auto. discriminate.
-  - intros y [->|Hy]; auto. now apply IH.
-  - apply IH. intros y Hy. apply H. auto.
+  - rewrite (H a (or_introl eq_refl)) in E. discriminate.
+  - intros y [<-|Hy]; auto. now apply IH.
+  - apply IH. intros y Hy. apply H. now right.
 Qed.
 Lemma last_find_unique {A} (p : A -> bool) (l : list A) x :
   In x l -> p x = true -> (forall y, In y l -> p y = true -> y = x) -> last_find p l = Some x.
-Proof. intros Hin Hp Hu. unfold last_find. apply find_unique; auto; [now apply in_rev|]. intros y Hy. apply Hu. now apply in_rev in Hy. Qed.
+Proof. intros Hin Hp Hu. unfold last_find. apply find_unique.
+  - apply in_rev in Hin. exact Hin.
+  - exact Hp.
+  - intros y Hy. apply Hu. apply in_rev. exact Hy.
+Qed.
 Lemma last_find_none {A} (p : A -> bool) (l : list A) : (forall y, In y l -> p y = false) -> last_find p l = None.
-Proof. intros H. unfold last_find. apply find_none_iff. intros y Hy. apply H. now apply in_rev in Hy. Qed.
+Proof. intros H. unfold last_find. apply find_none_iff. intros y Hy. apply H. apply in_rev. exact Hy. Qed.
 
 Lemma NoDup_map_inj_in {A B} (f : A -> B) l x y : NoDup (map f l) -> In x l -> In y l -> f x = f y -> x = y.
 Proof.
@@ -46,22 +50,26 @@ Section Lookup.
   Lemma channel_unique c c' : In c (channels sp) -> In c' (channels sp) -> c_name c = c_name c' -> c = c'.
   Proof. intros. eapply NoDup_map_inj_in; eauto. Qed.
 
-  Lemma filter_channel c : In c (channels sp) ->
-    flat_map c_samples (filter (fun c' => String.eqb (c_name c') (c_name c)) (channels sp)) = c_samples c.
+  Lemma filter_none (cn : string) (l : list (channel N)) : ~ In cn (map c_name l) ->
+    filter (fun c' : channel N => String.eqb (c_name c') cn) l = [].
   Proof.
-    intros Hc. assert (E : filter (fun c' => String.eqb (c_name c') (c_name c)) (channels sp) = [c]).
-    { revert Hchan Hc. generalize (channels sp) as l. induction l as [|a l IH]; intros Hnd Hin; [destruct Hin|].
-      inversion Hnd as [|? ? Hni Hnd']; subst. simpl. destruct Hin as [->|Hin].
-      - rewrite String.eqb_refl. f_equal.
-        assert (F : forall l', ~ In (c_name c) (map c_name l') -> filter (fun c' => String.eqb (c_name c') (c_name c)) l' = []).
-        { induction l' as [|b l' IH']; simpl; auto. intros Hn. destruct (String.eqb_spec (c_name b) (c_name c)) as [e|ne]; [exfalso; apply Hn; left; auto|].
-          apply IH'. intro; apply Hn; now right. }
-        now apply F.
-      - destruct (String.eqb_spec (c_name a) (c_name c)) as [e|ne].
-        + exfalso. apply Hni. rewrite e. now apply in_map.
-        + now apply IH. }
-    rewrite E. simpl. now rewrite app_nil_r.
+    induction l as [|b l IH]; simpl; auto. intros Hn.
+    destruct (String.eqb_spec (c_name b) cn) as [e|ne]; [exfalso; apply Hn; left; auto|].
+    apply IH. intro; apply Hn; now right.
   Qed.
+  Lemma filter_single (l : list (channel N)) c : NoDup (map c_name l) -> In c l ->
+    filter (fun c' : channel N => String.eqb (c_name c') (c_name c)) l = [c].
+  Proof.
+    induction l as [|a l IH]; intros Hnd Hin; [destruct Hin|].
+    inversion Hnd as [|? ? Hni Hnd']; subst. simpl. destruct Hin as [->|Hin].
+    - rewrite String.eqb_refl. f_equal. now apply filter_none.
+    - destruct (String.eqb_spec (c_name a) (c_name c)) as [e|ne].
+      + exfalso. apply Hni. rewrite e. now apply in_map.
+      + now apply IH.
+  Qed.
+  Lemma filter_channel c : In c (channels sp) ->
+    flat_map c_samples (filter (fun c' : channel N => String.eqb (c_name c') (c_name c)) (channels sp)) = c_samples c.
+  Proof. intros Hc. rewrite (filter_single _ c Hchan Hc). simpl. now rewrite app_nil_r. Qed.
 
   (* the helper dictionary lookup is a find in the channel's own sample list *)
   Lemma cell_is_find c sn : In c (channels sp) ->
